@@ -3,6 +3,7 @@ use bytes::BytesMut;
 use super::{Chunker, FilterConfig};
 use crate::{rolling_hash::RollingHash, Chunk};
 
+#[cfg_attr(oll3_bita_verif, derive(Hash))]
 pub struct RollingHashChunker<H> {
     hasher: H,
     filter_mask: u32,
